@@ -13,9 +13,11 @@ func init() { props["C04"] = propC04 }
 
 // a valid encoding to start mutations from, for the decoder `name`
 func (g *Gen) baseFor(name string) []byte {
+	tries := 0
 	switch {
 	case name == "msg" || name == "hdr":
 		for {
+			retryCap(&tries, "valid encoding for "+name)
 			m := buildMsg(g.msg())
 			if b, err := m.Encode(); err == nil {
 				return b
@@ -23,6 +25,7 @@ func (g *Gen) baseFor(name string) []byte {
 		}
 	case strings.HasPrefix(name, "chain-"):
 		for {
+			retryCap(&tries, "valid encoding for "+name)
 			c := buildPayloads(g.payloadList())
 			if b, err := c.Encode(); err == nil {
 				return b
@@ -32,6 +35,7 @@ func (g *Gen) baseFor(name string) []byte {
 		return g.bytes(g.size(200))
 	case strings.HasPrefix(name, "pl-"):
 		for {
+			retryCap(&tries, "valid encoding for "+name)
 			p := buildPayload(g.payload(name[3:], false))
 			if b, err := p.Marshal(); err == nil {
 				return b
@@ -39,6 +43,7 @@ func (g *Gen) baseFor(name string) []byte {
 		}
 	case name == "eap":
 		for {
+			retryCap(&tries, "valid encoding for "+name)
 			p := buildPayload(g.eap())
 			if b, err := p.Marshal(); err == nil {
 				return b
@@ -47,6 +52,7 @@ func (g *Gen) baseFor(name string) []byte {
 	case strings.HasPrefix(name, "eapm-"):
 		kind := name[5:]
 		for {
+			retryCap(&tries, "valid encoding for "+name)
 			s := g.eapTypeData()
 			if s.Head() != kind {
 				continue
@@ -288,6 +294,104 @@ func propC04(c *Ctx) {
 						c.checkDecoder(s2b, d, in, idx, "sweep16")
 						idx++
 					}
+				}
+			}
+		}
+	}
+
+	// (2c) nested length fields that lie, two at a time: SA bodies in which one transform declares every length
+	// 0,4,7..14 while its attribute declares every length / value 0..5 and 65520..65535 (both attribute formats),
+	// with 0..8 octets really following, at every transform position; TS and CP bodies likewise
+	s2c := c.suite("nested-length-lies", "oracle",
+		"SA bodies (1..3 transforms, proposal length consistent with the octets present): at every transform position the cross product {declared transform length 0,4,7..14} x {attribute length/value field 0..5, 65520..65535} x {TV, TLV} x {0,1,4,8 value octets present}; TS bodies: {selector length 0,4,8,15..17,39..41} x {count 0,1,2,255} x {type 7,8,9}; CP bodies: {attribute length 0..4, 65530..65535} x {0,1,4 octets present}; through the body decoder, the chain decoder and the message decoder; non-trivial = every case")
+	{
+		var plSA, plTSi, plCP decoder
+		for _, d := range ds {
+			switch d.name {
+			case "pl-SA":
+				plSA = d
+			case "pl-TSi":
+				plTSi = d
+			case "pl-CP":
+				plCP = d
+			}
+		}
+		var msgDec decoder = ds[0]
+		emit := func(d decoder, typ uint8, body []byte) {
+			r := c.checkDecoder(s2c, d, body, idx, "lies")
+			idx++
+			if idx%13 == 0 {
+				corr = append(corr, corrCase{line: "dec " + d.name + " " + hx(body), goRes: r.String(), tags: []string{"dec:" + d.name, "outcome:" + r.kind, "lies"}, nontr: true})
+			}
+			if idx%4 == 0 {
+				c.checkDecoder(s2c, msgDec, encodeHeaderRef(g.header(), typ, encodeChainRef([]chainElem{{typ: typ, body: body}})), idx, "lies")
+			}
+		}
+		tls := []int{0, 4, 7, 8, 9, 10, 11, 12, 13, 14}
+		als := []int{0, 1, 2, 3, 4, 5}
+		for v := 65520; v <= 65535; v++ {
+			als = append(als, v)
+		}
+		for base := 0; base < c.n(2, 12); base++ {
+			nT := 1 + base%3
+			spi := g.bytes([]int{0, 4, 8}[base%3])
+			type tr struct{ typ, id, at, av int }
+			trs := make([]tr, nT)
+			for i := range trs {
+				trs[i] = tr{1 + g.r.Intn(5), int(g.u16()), int(g.u15()), int(g.u16())}
+				if i%2 == 0 {
+					trs[i].at = 14
+				}
+			}
+			for j := 0; j < nT; j++ {
+				for _, tl := range tls {
+					for _, al := range als {
+						for _, tv := range []int{0, 1} {
+							for _, nv := range []int{0, 1, 4, 8} {
+								var tb []byte
+								for i, t := range trs {
+									last := byte(3)
+									if i == nT-1 {
+										last = 0
+									}
+									one := []byte{last, 0, 0, 12, byte(t.typ), 0, byte(t.id >> 8), byte(t.id), byte(0x80 | t.at>>8), byte(t.at), byte(t.av >> 8), byte(t.av)}
+									if i == j {
+										one[2], one[3] = byte(tl>>8), byte(tl)
+										one[8] = byte(tv<<7 | t.at>>8&0x7f)
+										one[10], one[11] = byte(al>>8), byte(al)
+										one = append(one, g.keyBytesRandom(nv)...)
+									}
+									tb = append(tb, one...)
+								}
+								pl := 8 + len(spi) + len(tb)
+								body := append([]byte{0, 0, byte(pl >> 8), byte(pl), 1, 1, byte(len(spi)), byte(nT)}, spi...)
+								emit(plSA, 33, append(body, tb...))
+							}
+						}
+					}
+				}
+			}
+		}
+		for _, sl := range []int{0, 4, 8, 15, 16, 17, 39, 40, 41} {
+			for _, cnt := range []int{0, 1, 2, 255} {
+				for _, ty := range []int{7, 8, 9} {
+					for _, present := range []int{0, 8, 16, 40, 41} {
+						body := []byte{byte(cnt), 0, 0, 0, byte(ty), byte(g.r.Intn(256)), byte(sl >> 8), byte(sl)}
+						body = append(body, g.keyBytesRandom(present)...)
+						emit(plTSi, 44, body)
+					}
+				}
+			}
+		}
+		for _, al := range []int{0, 1, 2, 3, 4, 65530, 65531, 65532, 65533, 65534, 65535} {
+			for _, present := range []int{0, 1, 4} {
+				for _, second := range []bool{false, true} {
+					body := []byte{byte(g.r.Intn(4)), 0, 0, 0, byte(g.r.Intn(128)), byte(g.r.Intn(256)), byte(al >> 8), byte(al)}
+					body = append(body, g.keyBytesRandom(present)...)
+					if second {
+						body = append(body, 0, 1, 0, 0)
+					}
+					emit(plCP, 47, body)
 				}
 			}
 		}
